@@ -23,7 +23,7 @@ ASSUME = [
     "goroutine leak / hung stop are decided from goroutine dumps: every goroutine of the module under test parked on a synchronisation object and motionless over 3 consecutive dumps 1 s apart; anything slower than the deadlines is exit 2, never a verdict",
     "edge capacity 1000 is represented by K in {1,2} in the model; the driver uses the real capacity with 5..2400 points in flight",
     "the node.run / edge.emit hooks (build tag verif) only delay or fail a goroutine at a point where the Go scheduler could have delayed it / the node could have returned an error",
-    "UDF nodes (stopUDF = Abort) and batch tasks are not covered",
+    "UDF nodes are exercised with an in-process mirror agent over pipes (real UDFNode, udf.Server and Go agent; no external process); batch tasks are not covered",
     "TLC fingerprint collisions are negligible; the libflux link stub is never executed",
 ]
 
@@ -34,6 +34,7 @@ ORIGINAL = [
     ("Pipeline_orig_alertlock.cfg", "Deadlock reached", "alert node start needs tm.mu while StopTask holds it"),
     ("Pipeline_orig_alerterr.cfg", "Deadlock reached", "failed alert node left its handler goroutines behind"),
     ("Pipeline_loop.cfg", "Deadlock reached", "KNOWN FINDING loopback-stop-deadlock (not repaired)"),
+    ("Pipeline_udf.cfg", "NoAcceptedLoss", "KNOWN FINDING udf-stop-aborts (not repaired)"),
 ]
 
 
@@ -42,9 +43,9 @@ def run(sc, tier, seed):
     V.build_harness("c07")
     # ---- design level
     if tier == "quick":
-        cfgs = ["Pipeline_quick.cfg", "Pipeline_quick_k2.cfg", "Pipeline_loopclose.cfg"]
+        cfgs = ["Pipeline_quick.cfg", "Pipeline_quick_k2.cfg", "Pipeline_loopclose.cfg", "Pipeline_udflive.cfg"]
     else:
-        cfgs = ["Pipeline_thorough.cfg", "Pipeline_thorough_k2.cfg", "Pipeline_thorough_buf.cfg", "Pipeline_loopclose.cfg"]
+        cfgs = ["Pipeline_thorough.cfg", "Pipeline_thorough_k2.cfg", "Pipeline_thorough_buf.cfg", "Pipeline_loopclose.cfg", "Pipeline_udflive.cfg"]
     per_cfg = {}
     for cfg in cfgs:
         res = V.model_check(sc, "Pipeline", "PipelineMC.tla", cfg, timeout=2400)
